@@ -496,6 +496,9 @@ def check(run: Run) -> None:
     run.rule("R02.5b", "all copies of the emitter's escape chain are identical", 1)
     c04.check_escape_inverse(run, "R02.5", "R02.5b")
     c04.check_number_spelling(run, "R02.11")
+    from . import c01 as _c01
+
+    _c01.check_indent(run, "R02.12")  # which parent a field belongs to is carried by indentation alone
     check_child_loops(run)
     from . import c05
     c05.check_prepass_protection(run, "R02.7")
